@@ -470,12 +470,61 @@ pub enum StackCfg {
     Direct,
     /// BufWriter / BufReader of this capacity
     Buf(u32),
+    /// writers only: a write-back layer that keeps every write (with its position) in memory and hands
+    /// them to the device only when `flush` is called - not on seeks, not when dropped (a
+    /// transactional or caching destination); as a reader stack: the same as Direct
+    WriteBack,
 }
 
 pub enum Stack {
     Direct(Handle),
     BufW(BufWriter<Handle>),
     BufR(BufReader<Handle>),
+    WB(WriteBack),
+}
+
+/// See `StackCfg::WriteBack`.
+pub struct WriteBack {
+    inner: Handle,
+    pending: Vec<(u64, Vec<u8>)>,
+    pos: u64,
+    /// logical length: what the device holds plus what is pending
+    len: u64,
+}
+
+impl WriteBack {
+    fn new(inner: Handle) -> WriteBack {
+        let len = inner.world.borrow().devices[inner.dev].data.len() as u64;
+        let pos = inner.pos;
+        WriteBack { inner, pending: Vec::new(), pos, len }
+    }
+    fn write(&mut self, buf: &[u8]) -> io::Result<usize> {
+        self.pending.push((self.pos, buf.to_vec()));
+        self.pos += buf.len() as u64;
+        self.len = self.len.max(self.pos);
+        Ok(buf.len())
+    }
+    fn flush(&mut self) -> io::Result<()> {
+        while !self.pending.is_empty() {
+            let (pos, bytes) = self.pending[0].clone();
+            self.inner.seek(SeekFrom::Start(pos))?;
+            self.inner.write_all(&bytes)?;
+            self.pending.remove(0);
+        }
+        self.inner.flush()
+    }
+    fn seek(&mut self, to: SeekFrom) -> io::Result<u64> {
+        let t: i128 = match to {
+            SeekFrom::Start(n) => n as i128,
+            SeekFrom::End(d) => self.len as i128 + d as i128,
+            SeekFrom::Current(d) => self.pos as i128 + d as i128,
+        };
+        if t < 0 || t > u64::MAX as i128 {
+            return Err(io::Error::new(ErrorKind::InvalidInput, "seek before start"));
+        }
+        self.pos = t as u64;
+        Ok(self.pos)
+    }
 }
 
 impl Stack {
@@ -485,11 +534,12 @@ impl Stack {
         match cfg {
             StackCfg::Direct => Stack::Direct(h),
             StackCfg::Buf(c) => Stack::BufW(BufWriter::with_capacity(c as usize, h)),
+            StackCfg::WriteBack => Stack::WB(WriteBack::new(h)),
         }
     }
     pub fn reader(world: &WorldRef, dev: usize, cfg: StackCfg) -> Stack {
         match cfg {
-            StackCfg::Direct => Stack::Direct(Handle::new(world, dev)),
+            StackCfg::Direct | StackCfg::WriteBack => Stack::Direct(Handle::new(world, dev)),
             StackCfg::Buf(c) => Stack::BufR(BufReader::with_capacity(c as usize, Handle::new(world, dev))),
         }
     }
@@ -522,6 +572,15 @@ impl Write for Stack {
                 r
             }
             Stack::BufR(_) => Err(io::Error::new(ErrorKind::Unsupported, "read-only stack")),
+            Stack::WB(w) => {
+                let r = w.write(buf);
+                if w.inner.dev == SHP {
+                    if let Ok(n) = r {
+                        OFFERED_SHP.with(|c| c.set(c.get() + n as u64));
+                    }
+                }
+                r
+            }
         }
     }
     fn flush(&mut self) -> io::Result<()> {
@@ -529,6 +588,7 @@ impl Write for Stack {
             Stack::Direct(h) => h.flush(),
             Stack::BufW(b) => b.flush(),
             Stack::BufR(_) => Ok(()),
+            Stack::WB(w) => w.flush(),
         }
     }
 }
@@ -538,7 +598,7 @@ impl Read for Stack {
         match self {
             Stack::Direct(h) => h.read(buf),
             Stack::BufR(b) => b.read(buf),
-            Stack::BufW(_) => Err(io::Error::new(ErrorKind::Unsupported, "write-only stack")),
+            Stack::BufW(_) | Stack::WB(_) => Err(io::Error::new(ErrorKind::Unsupported, "write-only stack")),
         }
     }
 }
@@ -549,6 +609,7 @@ impl Seek for Stack {
             Stack::Direct(h) => h.seek(to),
             Stack::BufW(b) => b.seek(to),
             Stack::BufR(b) => b.seek(to),
+            Stack::WB(w) => w.seek(to),
         }
     }
 }
